@@ -251,6 +251,9 @@ func probesFor(c caseT) []probe {
 			for i, s := range path {
 				if strings.HasPrefix(s, "{") {
 					conc[i] = pv
+					if pv == "v7" { // positionally distinct values
+						conc[i] = fmt.Sprintf("v%d", 7+i)
+					}
 				} else {
 					conc[i] = s
 				}
@@ -277,6 +280,9 @@ func probesFor(c caseT) []probe {
 				add(strings.Join(append([]string{host + ".evil"}, conc...), "/")) // host with an extra label
 				add(strings.Join(append([]string{host + ".evil", "w"}, conc...), "/"))
 				add(strings.Join(append([]string{"evil." + host}, conc...), "/"))
+				if len(conc) > 0 { // first path segment presented as a host label
+					add(strings.Join(append([]string{host + "." + conc[0]}, conc[1:]...), "/"))
+				}
 			}
 		}
 	}
@@ -615,7 +621,7 @@ func judge(ds []decl, pr probe, o outcome) []finding {
 				detail: fmt.Sprintf("%s %s: normalized URL %q is declared but does not match the request (selected %q)", pr.Method, pr.URL, o.Norm, e.name())})
 		} else {
 			want := normPat.PathParams(pr.URL)
-			if !sameParams(want, o.Params) {
+			if !paramsOK(normPat, pr.URL, o.Params) {
 				fs = append(fs, finding{sig: "C13/path-params/differ-from-request-segments",
 					detail: fmt.Sprintf("%s %s: normalized %q, path parameters %v, the request's segments at the parameter positions are %v", pr.Method, pr.URL, o.Norm, o.Params, want)})
 			}
@@ -637,12 +643,25 @@ func declared(ds []decl, norm string) bool {
 	return false
 }
 
-func sameParams(a, b map[string]string) bool {
-	if len(a) != len(b) {
+// paramsOK: exactly the parameter names of the pattern, each bound to the request's segment at a
+// position carrying that name (a name used at several positions may report any of them).
+func paramsOK(p sim.Pattern, url string, got map[string]string) bool {
+	up := sim.SplitURL(url)
+	allowed := map[string]map[string]bool{}
+	for i, pp := range p.Parts {
+		if pp.IsParam() && i < len(up) {
+			n := strings.Trim(pp.Val, "{}")
+			if allowed[n] == nil {
+				allowed[n] = map[string]bool{}
+			}
+			allowed[n][up[i].Val] = true
+		}
+	}
+	if len(allowed) != len(got) {
 		return false
 	}
-	for k, v := range a {
-		if w, ok := b[k]; !ok || w != v {
+	for n, v := range got {
+		if !allowed[n][v] {
 			return false
 		}
 	}
